@@ -415,10 +415,13 @@ package fdo
 //@   local done = addr:Alloc#1
 //@   local err = call:cbor.Decoder.Decode#1 | call:fdo.OwnerVoucherPersistentState.ReplaceVoucher#1 | extract1:call:fdo.TO2SessionState.GUID#1 | extract1:call:fdo.TO2SessionState.ProveDeviceNonce#1 | extract1:call:fdo.TO2SessionState.ReplacementGUID#1 | extract1:call:fdo.TO2SessionState.ReplacementHmac#1 | extract1:call:fdo.TO2SessionState.RvInfo#1 | extract1:call:fdo.TO2SessionState.SetupDeviceNonce#1 | extract1:call:fdo.VoucherPersistentState.Voucher#1 | extract2:call:fdo.TO2Server.ownerKey#1
 //@   local rsaBits = call:protocol.PublicKey.RsaBits#1
+//@   local setupDeviceNonce = extract0:call:fdo.TO2SessionState.SetupDeviceNonce#1
 //@   props C03 C08 C10(sweep)
 //@   sweep bounds,panic,make,nilmem
 //@   callsites ReplaceVoucher 1
 //@   callassert ReplaceVoucher#1: @nonce u(done.NonceTO2ProveDv) == ProveDvNonceOf(u(ctx))
+//@   callassert ReplaceVoucher#1: @readsdone u(setupDeviceNonce) == SetupDvNonceOf(u(ctx))
+//@   callsites SetupDeviceNonce 1
 //@   callassert ReplaceVoucher#1: @guid u(arg2) == SessGUID(u(ctx)) && u(currentOV) == VoucherFor(u(arg2))
 //@   callassert ReplaceVoucher#1: @header arg3.Header.Val.Version == currentOV.Header.Val.Version && u(arg3.Header.Val.GUID) == ReplGUIDOf(u(ctx)) && u(arg3.Header.Val.RvInfo) == RvInfoOf(u(ctx)) && u(arg3.Header.Val.DeviceInfo) == u(currentOV.Header.Val.DeviceInfo) && u(arg3.Header.Val.CertChainHash) == u(currentOV.Header.Val.CertChainHash)
 //@   callassert ReplaceVoucher#1: @ownerkey u(arg3.Header.Val.ManufacturerKey) == OwnerKeyFor(u(currentOV.Header.Val.ManufacturerKey.Type), u(currentOV.Header.Val.ManufacturerKey.Encoding), u(rsaBits))
@@ -611,7 +614,7 @@ package fdo
 //@   local messageName = extract1:call:strings.Cut#1
 //@   local module = MakeInterface#2 | Phi#3 | extract1:call:serviceinfo.ModuleStateMachine.Module#1
 //@   local moduleName = Phi#2 | extract0:call:serviceinfo.ModuleStateMachine.Module#1 | extract0:call:strings.Cut#1
-//@   props C16 C08 C05(functional) C10(sweep,assert)
+//@   props C16 C08 C15(functional) C05(functional) C10(sweep,assert)
 //@   sweep bounds,panic,make,nilmem,div
 //@   callsites io.Copy 1
 //@   callassert io.Copy#1: @discard u(arg1) == u(messageBody) && u(arg0) == u(io.Discard)
